@@ -20,7 +20,9 @@ ASSUMPTIONS = [
 ]
 RULE = ("cases from props/C12.py gen(): hyperplane sets of dimension 1..5 and size 1..25 with duplicates, exact ties, "
         "near-parallel pairs (difference 2^-k), spike (corner-only) and face-only maximisers, dyadic entries; "
-        "interpolation point sets/queries with zero coordinates and queries equal to a stored point. "
+        "interpolation point sets/queries with zero coordinates and queries equal to a stored point; "
+        "ubp: 0..8 hyperplanes and 0..14 belief points (duplicates, corners) for extractBestUsefulPoints; "
+        "fbdd: up to 12 hyperplanes, a belief, a plane and a dyadic delta (exact 3-4-5 ties) for findBestDeltaDominated. "
         "non-trivial = something was pruned and something kept / a tie was broken / a stored point entered the bound; "
         "distinct by md5 of the case line")
 
@@ -186,7 +188,7 @@ def gen_interp_faces(rng, kind):
 def gen(rng, tier):
     n = {"quick": 700, "thorough": 5000, "search": 1500}[tier]
     out = []
-    kinds = ["ed"] * 5 + ["edi"] * 4 + ["fbp", "fbp", "fbc", "ebp", "ebc", "dom", "dom"] + ["prune"] * 2 + ["prune2"] + ["fvn", "fvn", "fvr"] + ["saw"] * 3 + ["lpi"] * 3
+    kinds = ["ed"] * 5 + ["edi"] * 4 + ["fbp", "fbp", "fbc", "ebp", "ebc", "dom", "dom"] + ["prune"] * 2 + ["prune2"] + ["fvn", "fvn", "fvr"] + ["saw"] * 3 + ["lpi"] * 3 + ["ubp"] * 3 + ["fbdd"] * 2
     for _ in range(n):
         kind = rng.choice(kinds)
         d = rng.choice([1, 2, 2, 3, 3, 4, 5])
@@ -234,6 +236,30 @@ def gen(rng, tier):
                 if rng.random() < 0.1:
                     rg.append(list(rng.choice(rg)))        # duplicate plane: singular systems
                 out.append("fvr %s" % vecs(rg, dd))
+        elif kind == "ubp":                   # extractBestUsefulPoints: planes (possibly none), belief points with duplicates
+            nw = rng.choice([0, 1, 1, 2, 2, 3, 4, 6, 8])
+            w = rand_vecset(rng, d, nw) if nw else []
+            npts = rng.choice([0, 1, 2, 3, 4, 5, 6, 8, 10, 14])
+            pts = []
+            for _ in range(npts):
+                r = rng.random()
+                if pts and r < 0.2:
+                    pts.append(list(rng.choice(pts)))          # duplicate point: equal values on the same plane
+                elif r < 0.35:
+                    i = rng.randrange(d)
+                    pts.append([F(1) if j == i else F(0) for j in range(d)])   # corner
+                else:
+                    pts.append(rand_belief(rng, d))
+            out.append("ubp %s %s" % (vecs(w, d), vecs(pts, d)))
+        elif kind == "fbdd":                  # findBestDeltaDominated: integer / quarter entries, dyadic delta
+            l = rand_vecset(rng, d, min(sz, 12))
+            plane = list(rng.choice(l)) if rng.random() < 0.3 else [rand_entry(rng) - 4 for _ in range(d)]
+            delta = rng.choice([F(-1), F(0), F(0), F(1, 8), F(1, 4), F(1, 2), F(3, 4), F(1), F(1), F(2), F(5)])
+            if rng.random() < 0.2 and d >= 2:  # exact ties: difference vector (3,4,0..)*t has norm 5t
+                t = F(rng.randint(1, 4), 4)
+                l.insert(rng.randrange(len(l) + 1), [x + t * (3 if j == 0 else 4 if j == 1 else 0) for j, x in enumerate(plane)])
+            out.append("fbdd %s %s %s %s" % (vecs(l, d), " ".join(q(x) for x in rand_belief(rng, d)),
+                                             " ".join(q(x) for x in plane), q(delta)))
         elif kind == "prune2":                # one Pruner object reused on two sets of different sizes
             big = rng.choice([8, 10, 12, 16]); small = rng.choice([3, 4, 5, 6])
             a, b = (big, small) if rng.random() < 0.7 else (small, big)
